@@ -642,9 +642,12 @@ Proof.
   assert (Hd : at_derived t0 = sc_derived sc) by (rewrite Et0; reflexivity).
   assert (Ha : at_att t0 = [sc_root sc]) by (rewrite Et0; reflexivity).
   apply andb_true_iff. split.
-  - rewrite <- Hr, <- Hd. eapply sound_auth; [exact ES | exact ND | exact EV | | intros i; rewrite Ha; reflexivity].
+  - rewrite <- Hr, <- Hd.
+    apply (sound_auth _ _ _ _ _ ES ND (sc_root_len sc) a t0 [sc_root sc] (sc_root sc) EV);
+      [|intros i; rewrite Ha; reflexivity].
     eapply checks_sound; [exact Hum | exact Hval | reflexivity | reflexivity | exact Ha].
-  - rewrite <- Hr, <- Hd. apply model_dels_spec; [exact ES | exact ND | exact W2 | intros i; rewrite Ha; reflexivity |].
+  - rewrite <- Hr, <- Hd.
+    apply (model_dels_spec _ _ _ _ _ ES ND); [exact W2 | intros i; rewrite Ha; reflexivity |].
     intros nb Hnb. apply in_map_iff in Hnb. destruct Hnb as [d [<- Hd']]. cbn [snd].
     apply batch_consistent_b_ok. rewrite forallb_forall in HC. apply HC. exact Hd'.
 Qed.
